@@ -28,6 +28,14 @@ def scratch():
     if _scratch is None:
         base = '/dev/shm' if os.path.isdir('/dev/shm') else '/tmp'
         _scratch = os.path.join(base, 'verif-%d' % os.getpid())
+        # scratch directories of checks that were killed (no atexit) are removed by the next run
+        for d in glob.glob(os.path.join(base, 'verif-[0-9]*')):
+            try:
+                os.kill(int(d.rsplit('-', 1)[1]), 0)
+            except (ProcessLookupError, ValueError):
+                shutil.rmtree(d, ignore_errors=True)
+            except PermissionError:
+                pass
         os.makedirs(_scratch, exist_ok=True)
         if not os.environ.get('VERIF_KEEP_SCRATCH'):   # debugging aid: keep traces and TLC outputs
             atexit.register(lambda: shutil.rmtree(_scratch, ignore_errors=True))
